@@ -292,6 +292,38 @@ def local_vertex(P, px, py, nrow, ncol, axis):
     return z3.If(inside, v, z3.RealVal(0))
 
 
+def patch_clauses(s, g, tag=""):
+    """Index bookkeeping of the 3x3 patch handed to the parabolic refinement (ghost log of the slices cut out of the searched
+    window): it is cut out of the window that argmax searched, with WINDOW indices; it is complete (3x3) exactly when the 3x3
+    neighbourhood of the argmax position fits into the window, and then its centre element patch[1,1] IS the argmax sample
+    (rows argmax-1 .. argmax+1, columns argmax-1 .. argmax+1).  Nothing is stated when the function cuts no slice out of the
+    searched window (another way of reading the neighbours): the value-level clause `...+vertex/up` decides then."""
+    ps = [p for p in s.ctx.ghost.get("c13_patches", []) if p["arr"] is g["arr"]]
+    if not ps:
+        return []
+    p = ps[0]
+    nrow, ncol = g["shape"]
+    x0, y0 = lift(g["x0"]), lift(g["y0"])
+    inside = AND(x0 >= 1, x0 <= lift(nrow) - 2, y0 >= 1, y0 <= lift(ncol) - 2)
+    shp = p["shape"]
+    ok = shp is not None and len(shp) == 2 and p["step"] == (1, 1)
+    out = [(f"{tag}refinement-patch-is-one-contiguous-2d-slice-of-the-searched-window", pybool(ok and len(ps) == 1))]
+    if not ok:
+        return out
+    is3 = AND(lift(shp[0]) == 3, lift(shp[1]) == 3)
+    (a0, a1), (b0, b1) = p["asked"]
+    asked = [t for t in (a0, a1, b0, b1)]
+    out += [
+        (f"{tag}refinement-patch-is-complete(3x3)-exactly-when-the-neighbourhood-of-the-argmax-fits-the-window", is3 == inside),
+        (f"{tag}refinement-patch-centre-element[1,1]-is-the-argmax-sample(rows-argmax-1..argmax+1,cols-argmax-1..argmax+1)",
+         implies(is3, AND(lift(p["lo"][0]) + 1 == x0, lift(p["lo"][1]) + 1 == y0))),
+        (f"{tag}refinement-patch-bounds-are-window-indices:[argmax-1,argmax+2)-on-both-axes",
+         pybool(all(t is not None for t in asked)) if any(t is None for t in asked) else
+         AND(lift(a0) == x0 - 1, lift(a1) == x0 + 2, lift(b0) == y0 - 1, lift(b1) == y0 + 2)),
+    ]
+    return out
+
+
 def ups_setup(ctx):
     Mx, Nx = sizes(ctx)
     up = ctx.fresh("up", "int")
@@ -330,6 +362,20 @@ def ups_ensures(s):
             (f"axis{ax}:window-centre-sample-within-half-an-upsampled-pixel-of-the-input-estimate",
              AND((mid - centre) / up - est <= 1 / (2 * up), est - (mid - centre) / up <= 1 / (2 * up))),
         ]
+    # -- index bookkeeping, each step a named obligation (symbolic upsample factor and shapes)
+    gs = z3.ToInt(z3.ToReal(window_len(s.upsampleFactor)) / 2)      # centre index of the window: floor(ceil(1.5 up) / 2)
+    out.append(("window-centre-index=floor(ceil(1.5*up)/2)-is-an-index-of-the-searched-window",
+                AND(gs >= 0, gs < lift(nrow), gs < lift(ncol), lift(nrow) == window_len(s.upsampleFactor), lift(ncol) == window_len(s.upsampleFactor))))
+    out += patch_clauses(s, g)
+    for ax, pk in enumerate((g["x0"], g["y0"])):
+        centre = R(c["centre"].fn(z3.IntVal(ax)))
+        snapped = (z3.ToReal(gs) - centre) / up         # position of the window's centre sample (callee contract: X_a = (a - centre)/up)
+        est = R(s.xyShift.fn(z3.IntVal(ax)))
+        tv = local_vertex(P, g["x0"], g["y0"], nrow, ncol, ax)
+        # (that the centre sample sits within half an upsampled pixel of the input estimate is the clause
+        #  `window-centre-sample-within-half-an-upsampled-pixel-of-the-input-estimate` above)
+        out.append((f"axis{ax}:returned-shift=position-of-window-centre-sample+(argmax-index-window-centre-index)/up+parabolic-correction/up",
+                    R(res.fn(z3.IntVal(ax))) == snapped + (R(pk) - z3.ToReal(gs)) / up + tv / up))
     out.append(("frame:inputs-not-written", pybool(s.imageCorr.writes == 0 and s.xyShift.writes == 0)))
     return out
 
@@ -406,13 +452,39 @@ def align_ensures(s):
             (f"axis{ax}:half-pixel-estimate-within-1/4-of-coarse-peak+parabolic-vertex(circular-neighbours)",
              implies(cv != 0, AND(e - target <= z3.RealVal("1/4"), target - e <= z3.RealVal("1/4")))),
             (f"axis{ax}:flat-neighbourhood-keeps-the-coarse-peak", implies(cv == 0, e == R(pk))),
+            # raw (unsigned) convention: integer peak position inside the array + a sub-pixel part of at most 1/2 + 1/4 pixel
+            (f"axis{ax}:coarse-peak-is-an-index-of-the-correlation-array[0,n)", AND(lift(pk) >= 0, lift(pk) < lift(n))),
+            (f"axis{ax}:half-pixel-estimate=coarse-peak+sub-pixel-part-of-at-most-3/4(peak-sample-not-below-its-neighbours)",
+             implies(AND(v1 >= v0, v1 >= v2), AND(e - R(pk) <= z3.RealVal("3/4"), R(pk) - e <= z3.RealVal("3/4")))),
         ]
     out.append(("frame:inputs-not-written", pybool(s.G1.writes == 0 and s.G2.writes == 0)))
     return out
 
 
+def RAW(ax):
+    """ghost: value (axis ax) that align_images_fourier_torch returns for (spectrum of image `ref`, spectrum of image `im`, upsample
+    factor); images are named by integer identities (-1 = the caller's reference image, k >= 0 = image k of the caller's stack)."""
+    return z3.Function(f"align_images_fourier_torch!raw{ax}", z3.IntSort(), z3.IntSort(), z3.IntSort(), z3.RealSort())
+
+
+def wrapspec(x, n):
+    """the signed convention: x reported in the centred cell [-n/2, n/2) (x minus the multiple of n that puts it there)."""
+    x, n = R(x), R(n)
+    return x - n * z3.ToReal(z3.ToInt((x + n / 2) / n))
+
+
+def image_ids(a, b):
+    ia, ib = getattr(a, "c13_id", None), getattr(b, "c13_id", None)
+    return None if ia is None or ib is None else (ia, ib)
+
+
 def align_result(ctx, s):
-    r = ctx.fresh_arr("xy_shift", (2,), "real")
+    ids = image_ids(s.G1, s.G2)
+    if ids is not None:
+        # the estimator is a function of its arguments: its value for (image a, image b, up) is the ghost term RAW(a, b, up)
+        r = V.from_list([Sym(RAW(ax)(ids[0], ids[1], lift(s.upsample_factor))) for ax in (0, 1)], kind="real", pylist=False)
+    else:
+        r = ctx.fresh_arr("xy_shift", (2,), "real")
     r.as_type = __import__("torch").Tensor
     ctx.ghost.setdefault("c13_align_calls", []).append(dict(G1=s.G1, G2=s.G2, up=s.upsample_factor, result=r))
     return r
@@ -433,7 +505,25 @@ def cct_setup(ctx):
     return NS(im_ref=a, im=b, upsample_factor=up, M=Mx, N=Nx)
 
 
+def cct_result(ctx, s):
+    r = ctx.fresh_arr("signed_shift", (2,), "real")
+    r.as_type = __import__("torch").Tensor
+    ctx.ghost.setdefault("c13_cct_calls", []).append(dict(im_ref=s.im_ref, im=s.im, up=s.upsample_factor, result=r))
+    return r
+
+
 def cct_ensures(s):
+    if s.mode == "apply":
+        # used BY CONTRACT: the three clauses proved below, for the estimate of (image a, image b, up) named by the ghost term RAW
+        ids = image_ids(s.im_ref, s.im)
+        if ids is None or not isinstance(s.im_ref, SymArr) or s.im_ref.ndim != 2:
+            return []
+        out = []
+        for ax in (0, 1):
+            n = s.im_ref.shape[ax]
+            r, x = R(s.result.fn(z3.IntVal(ax))), RAW(ax)(ids[0], ids[1], lift(s.upsample_factor))
+            out += [(f"axis{ax}:equals-the-centred-wrap-of-the-estimate", r == wrapspec(x, n)), (f"axis{ax}:in-centred-cell[-n/2,n/2)", in_cell(r, n))]
+        return out
     calls = s.ctx.ghost.get("c13_align_calls", [])
     out = [("estimates-through-align_images_fourier_torch-once", pybool(len(calls) == 1))]
     if len(calls) != 1:
@@ -448,12 +538,21 @@ def cct_ensures(s):
     for ax, n in enumerate((s.M, s.N)):
         r, x = res.fn(z3.IntVal(ax)), c["result"].fn(z3.IntVal(ax))
         out += [(f"axis{ax}:in-centred-cell[-n/2,n/2)", in_cell(r, n)),
-                (f"axis{ax}:congruent-to-the-estimate-mod-n", congruent(r, x, n, f"t{ax}"))]
+                (f"axis{ax}:congruent-to-the-estimate-mod-n", congruent(r, x, n, f"t{ax}")),
+                (f"axis{ax}:equals-the-centred-wrap-of-the-estimate", R(r) == wrapspec(x, n))]
     out.append(("frame:inputs-not-written", pybool(s.im_ref.writes == 0 and s.im.writes == 0)))
     return out
 
 
-C_CCT = Contract(f"{IU}:cross_correlation_shift_torch", setup=cct_setup, ensures=cct_ensures)
+def cct_requires(s):
+    if s.mode != "apply":
+        return []
+    a, b = s.im_ref, s.im
+    ok = isinstance(a, SymArr) and isinstance(b, SymArr) and a.ndim == 2 and b.ndim == 2
+    return [("two-2d-images-of-equal-shape", pybool(False) if not ok else AND(lift(a.shape[0]) == lift(b.shape[0]), lift(a.shape[1]) == lift(b.shape[1])))]
+
+
+C_CCT = Contract(f"{IU}:cross_correlation_shift_torch", setup=cct_setup, requires=cct_requires, ensures=cct_ensures, result=cct_result)
 
 
 # ------------------------------------------------------------------------------------------------
@@ -501,13 +600,16 @@ C_DFTN = Contract(f"{IU}:dft_upsample", setup=dftn_setup, requires=lambda s: [("
 
 # (fft_input, return_shifted_image, fft_output, max_shift is None)
 CCS_COMBOS = [(False, False, False, True), (True, True, True, False), (False, True, False, False),
-              (True, True, False, True), (True, False, False, False), (False, True, True, True)]
+              (True, True, False, True), (True, False, False, False), (False, True, True, True),
+              # the other six of the twelve combinations (the first six are a pairwise cover)
+              (False, False, False, False), (True, False, False, True), (False, True, False, True),
+              (True, True, False, False), (False, True, True, False), (True, True, True, True)]
 
 
 def ccs_setup(ctx, subset=(0, 1, 2, 3, 4, 5)):
     Mx, Nx = sizes(ctx)
     up = ctx.fresh("up", "int")
-    # option combinations: a pairwise cover (6 of the 12 combinations; every statement that tests an option tests exactly one)
+    # option combinations: all 12 of (fft_input) x (no image | real-space image | spectrum) x (max_shift None | given), three per contract object
     combos = CCS_COMBOS
     which = ctx.fresh("configuration", "int")
     ctx.assume(OR(*[which.t == i for i in subset]))
@@ -599,11 +701,15 @@ def ccs_ensures(s):
         out += [
             ("upsampling-only-for-upsample>1", lift(s.upsample_factor) > 1),
             ("local-search-on-the-upsampled-window", pybool(g1 is not None and g1["arr"] is c["result"])),
+            ("window-centre-index=ceil(1.5*up)-is-an-index-of-the-searched-window",
+             pybool(False) if g1 is None else AND(c["centre_index"] >= 0, c["centre_index"] < lift(g1["shape"][0]), c["centre_index"] < lift(g1["shape"][1]))),
             ("same-upsample-factor", lift(c["up"]) == lift(s.upsample_factor)),
             # dft_upsample uses the forward kernel exp(-2 pi i k x/n); Re ifft of cc at +x is Re of the forward kernel on conj(cc)
             ("upsamples-the-conjugate-correlation(forward-kernel-convention)",
              pybool(norm(c["operand"].expr) == norm(("conj", ("mul", Fref, ("conj", Fim)))))),
         ]
+    if calls and len(log) > 1 and log[1]["arr"] is calls[0]["result"]:
+        out += patch_clauses(s, log[1])
     # -- aligned image: second image translated by the returned shift (shift theorem: spectrum * exp(-2 pi i k.s/n))
     if image is not None:
         term = image.expr if isinstance(image, CArr) else getattr(getattr(image, "real_of", None), "expr", None)
@@ -636,6 +742,8 @@ def ccs_ensures(s):
 # the same contract, verified in two halves of the configuration list (two worker processes)
 C_CCS = Contract(f"{IU}:cross_correlation_shift", setup=lambda ctx: ccs_setup(ctx, (0, 1, 2)), ensures=ccs_ensures, result=ccs_apply_result)
 C_CCS2 = Contract(f"{IU}:cross_correlation_shift", setup=lambda ctx: ccs_setup(ctx, (3, 4, 5)), ensures=ccs_ensures, result=ccs_apply_result)
+C_CCS3 = Contract(f"{IU}:cross_correlation_shift", setup=lambda ctx: ccs_setup(ctx, (6, 7, 8)), ensures=ccs_ensures, result=ccs_apply_result)
+C_CCS4 = Contract(f"{IU}:cross_correlation_shift", setup=lambda ctx: ccs_setup(ctx, (9, 10, 11)), ensures=ccs_ensures, result=ccs_apply_result)
 
 # ------------------------------------------------------------------------------------------------
 # call site with a HISTORY: tomography.utils.cross_correlation_align_stack (chain bookkeeping under a loop invariant)
@@ -791,6 +899,144 @@ def fss_ensures(s):
 C_FSS = Contract(f"{DP}:_fourier_shift_stack", setup=fss_setup, ensures=fss_ensures)
 
 # ------------------------------------------------------------------------------------------------
+# direct_ptycho_utils._compute_reference_shifts / _compute_pairwise_shifts: callers of the torch estimator, verified from source
+# with the registration entry points used BY CONTRACT (symbolic number of images, symbolic H and W, H != W allowed)
+# ------------------------------------------------------------------------------------------------
+
+
+def _torch_stack(ctx, n, Hx, Wx):
+    st = ctx.fresh_arr("vbf_stack", (n, Hx, Wx), "real")
+    st.name = "vbf_stack"
+    st.as_type = __import__("torch").Tensor
+    st.c13_stack = True
+    return st
+
+
+def ref_setup(ctx):
+    n, Hx, Wx, up = ctx.fresh("n_images", "int"), ctx.fresh("H", "int"), ctx.fresh("W", "int"), ctx.fresh("up", "int")
+    ctx.assume(AND(n.t >= 0, Hx.t >= 1, Wx.t >= 1))
+    ref = ctx.fresh_arr("reference", (Hx, Wx), "real")
+    ref.name, ref.as_type, ref.c13_id = "reference", __import__("torch").Tensor, z3.IntVal(-1)
+    j = ctx.fresh("j", "int")     # ONE arbitrary image of the stack (generic instance: every clause below holds for all j)
+    ns = NS(vbf_stack=_torch_stack(ctx, n, Hx, Wx), reference=ref, upsample_factor=up, n=n, H=Hx, W=Wx, j=j)
+    ctx.ghost["c13_caller_ns"] = ns
+    return ns
+
+
+def _shift_table(d, n):
+    """the (n, 2) table of shifts among the values of a namespace (name-independent)."""
+    for v in d.values():
+        if isinstance(v, SymArr) and v.ndim == 2 and V._dim_lit(v.shape[1]) == 2 and V.dims_equal(v.shape[0], n) and not getattr(v, "c13_stack", False):
+            return v
+    return None
+
+
+def _signed_rows(s, table, ida, idb, j, upto, tag=""):
+    """[(label, term)]: row j (< upto) of `table` is the estimator's shift for (image ida, image idb) in the signed convention:
+    ROW component reported in the centred cell of the image HEIGHT, COLUMN component in that of the image WIDTH."""
+    rng = AND(lift(j) >= 0, lift(j) < lift(upto))
+    out = []
+    for ax, (n, word) in enumerate(((s.H, "row-component:centred-wrap-by-the-image-HEIGHT"), (s.W, "col-component:centred-wrap-by-the-image-WIDTH"))):
+        if table is None:
+            out += [(f"{tag}shift-of-image-j={word}-of-the-estimate-for-(reference,image-j)", pybool(False))]
+            continue
+        r = R(table.fn(lift(j), z3.IntVal(ax)))
+        x = RAW(ax)(lift(ida), lift(idb), lift(s.upsample_factor))
+        out += [(f"{tag}shift-of-image-j={word}-of-the-estimate-for-(reference,image-j)", implies(rng, r == wrapspec(x, n))),
+                (f"{tag}shift-of-image-j:{word.split(':')[0]}-in-centred-cell[-n/2,n/2)", implies(rng, in_cell(r, n)))]
+    return out
+
+
+def ref_inv(s):
+    g = s.ctx.ghost["c13_caller_ns"]
+    return _signed_rows(g, _shift_table(s.__dict__, g.n), -1, g.j, g.j, s.k)
+
+
+def ref_ensures(s):
+    res = s.result
+    ok = isinstance(res, SymArr) and res.ndim == 2 and V._dim_lit(res.shape[1]) == 2
+    out = [("returns-one-(row,col)-shift-per-stack-image", pybool(False) if not ok else lift(res.shape[0]) == lift(s.n))]
+    if ok:
+        out += _signed_rows(s, res, -1, s.j, s.j, s.n)
+    out.append(("frame:inputs-not-written", pybool(s.vbf_stack.writes == 0 and s.reference.writes == 0)))
+    return out
+
+
+C_REF = Contract(f"{DP}:_compute_reference_shifts", setup=ref_setup, requires=lambda s: [("upsample_factor>=1", lift(s.upsample_factor) >= 1)],
+                 ensures=ref_ensures, loops={0: LoopSpec(inv=ref_inv)},
+                 note="cross_correlation_shift_torch / align_images_fourier_torch used by contract; estimator value for (image a, image b, up) = ghost term RAW")
+
+
+def pair_setup(ctx):
+    n, m, Hx, Wx, up = (ctx.fresh(v, "int") for v in ("n_images", "n_pairs", "H", "W", "up"))
+    ctx.assume(AND(n.t >= 1, m.t >= 0, Hx.t >= 1, Wx.t >= 1))
+    pairs = ctx.fresh_arr("pairs", (m, 2), "int")
+    pairs.as_type = __import__("torch").Tensor
+    q, c = z3.Int("q!pairs"), z3.Int("c!pairs")
+    ctx.assume(z3.ForAll([q, c], implies(AND(q >= 0, q < m.t, c >= 0, c < 2), AND(lift(pairs.fn(q, c)) >= 0, lift(pairs.fn(q, c)) < n.t))))
+    j = ctx.fresh("j", "int")
+    for cc in (0, 1):   # ground instances at the generic pair
+        ctx.assume(implies(AND(j.t >= 0, j.t < m.t), AND(lift(pairs.fn(j.t, z3.IntVal(cc))) >= 0, lift(pairs.fn(j.t, z3.IntVal(cc))) < n.t)))
+    ns = NS(vbf_stack=_torch_stack(ctx, n, Hx, Wx), pairs=pairs, upsample_factor=up, n=n, m=m, H=Hx, W=Wx, j=j)
+    ctx.ghost["c13_caller_ns"] = ns
+    return ns
+
+
+def _pair_rows(s, lst, j, upto):
+    """entry j (< upto) of the list is (i_j, k_j, signed shift of the estimate for (image i_j, image k_j))."""
+    rng = AND(lift(j) >= 0, lift(j) < lift(upto))
+    e = _aget(lst, j) if lst is not None else None
+    if e is None:
+        return [("entry-j=(i,k,signed-shift-for-(image-i,image-k))", z3.BoolVal(True))]
+    ok = isinstance(e, tuple) and len(e) == 3 and isinstance(e[2], SymArr) and e[2].ndim == 1 and V._dim_lit(e[2].shape[0]) == 2
+    if not ok:
+        return [("entry-j=(i,k,signed-shift-for-(image-i,image-k))", pybool(False))]
+    pi, pk = lift(s.pairs.fn(lift(j), z3.IntVal(0))), lift(s.pairs.fn(lift(j), z3.IntVal(1)))
+    out = [("entry-j-carries-the-pair's-own-indices(i,k)", implies(rng, AND(lift(e[0]) == pi, lift(e[1]) == pk)))]
+    for ax, (n, word) in enumerate(((s.H, "row-component:centred-wrap-by-the-image-HEIGHT"), (s.W, "col-component:centred-wrap-by-the-image-WIDTH"))):
+        r = R(e[2].fn(z3.IntVal(ax)))
+        out += [(f"shift-of-pair-j={word}-of-the-estimate-for-(image-i,image-k)", implies(rng, r == wrapspec(RAW(ax)(pi, pk, lift(s.upsample_factor)), n))),
+                (f"shift-of-pair-j:{word.split(':')[0]}-in-centred-cell[-n/2,n/2)", implies(rng, in_cell(r, n)))]
+    return out
+
+
+def _pair_list(d):
+    for v in d.values():
+        if isinstance(v, cm.AList) or (isinstance(v, list) and not v):
+            return v
+    return None
+
+
+def pair_inv(s):
+    lst = _pair_list(s.__dict__)
+    g = s.ctx.ghost["c13_caller_ns"]
+    return [("one-entry-per-processed-pair", pybool(False) if lst is None else _alen(lst) == lift(s.k))] + _pair_rows(g, lst, g.j, s.k)
+
+
+def pair_havoc(s):
+    """the result list at an arbitrary iteration: some list of (i, k, 2-vector) entries."""
+    name = next((k for k, v in s.__dict__.items() if isinstance(v, list) and k not in ("ctx",)), None)
+    if name is None:
+        return
+    fs = [z3.Function(s.ctx.fresh_name(t), z3.IntSort(), srt) for t, srt in (("ent_i", z3.IntSort()), ("ent_k", z3.IntSort()), ("ent_row", z3.RealSort()), ("ent_col", z3.RealSort()))]
+    s.env.assign(name, _fresh_alist(s.ctx, name, lambda q: (Sym(fs[0](lift(q))), Sym(fs[1](lift(q))), V.from_list([Sym(fs[2](lift(q))), Sym(fs[3](lift(q)))], kind="real", pylist=False))))
+
+
+def pair_ensures(s):
+    res = s.result
+    ok = isinstance(res, (cm.AList, list))
+    out = [("returns-a-list-with-one-entry-per-pair", pybool(False) if not ok else _alen(res) == lift(s.m))]
+    if ok:
+        out += _pair_rows(s, res, s.j, s.m)
+    out.append(("frame:inputs-not-written", pybool(s.vbf_stack.writes == 0 and s.pairs.writes == 0)))
+    return out
+
+
+C_PAIR = Contract(f"{DP}:_compute_pairwise_shifts", setup=pair_setup, requires=lambda s: [("upsample_factor>=1", lift(s.upsample_factor) >= 1)],
+                  ensures=pair_ensures, loops={0: LoopSpec(inv=pair_inv, havoc={"<result-list>": pair_havoc})},
+                  note="cross_correlation_shift_torch used by contract; pair indices are valid stack indices (call site: built from arange(N))")
+
+# ------------------------------------------------------------------------------------------------
 # sibling entry point imaging.drift.DriftCorrection.align_translation: WHAT it hands to the estimator (call-site preconditions)
 # The object model, library models and collaborator contracts are C15's (contracts/C15.py, imported lazily: C15 imports this
 # module); only the call-site contract of cross_correlation_shift is replaced by one whose `requires` compares the arguments with
@@ -867,7 +1113,7 @@ def _at13_verify(reg, *a, **kw):
 
 C_AT13.verify = _at13_verify
 
-CONTRACTS = [C_CCS, C_CCS2, C_ALIGN, C_DFTT, C_UPS, C_CCT, C_DFTN, C_STACK, C_FSS, C_AT13]
+CONTRACTS = [C_CCS, C_CCS2, C_CCS3, C_CCS4, C_ALIGN, C_DFTT, C_UPS, C_CCT, C_DFTN, C_STACK, C_FSS, C_AT13, C_REF, C_PAIR]
 
 # ------------------------------------------------------------------------------------------------
 # property-level lemmas (from the statements above alone)
@@ -886,6 +1132,10 @@ def lemma_parabola(ctx):
         ("maximal-centre-sample=>offset-within-half-a-pixel", [v1 >= v0, v1 >= v2, curvature(v0, v1, v2) != 0], AND(t >= -HALF, t <= HALF)),
         ("symmetric-peak(integer-shift)=>offset-exactly-zero", [v0 == v2, curvature(v0, v1, v2) != 0], t == 0),
         ("reflection(swapped-images)-negates-the-offset", [curvature(v0, v1, v2) != 0], vertex(v2, v1, v0) == -t),
+        # the flat case of the NumPy parabolic_peak (division by a zero curvature, no test in the code): it cannot occur at a
+        # UNIQUE peak (the property's quantifier), and at a maximal centre sample it occurs exactly on a three-sample plateau
+        ("strict(unique)-peak=>curvature-positive:the-unguarded-division-is-by-a-non-zero-number", [v1 > v0, v1 > v2], curvature(v0, v1, v2) > 0),
+        ("maximal-centre-sample-with-zero-curvature<=>three-equal-samples(plateau)", [v1 >= v0, v1 >= v2], (curvature(v0, v1, v2) == 0) == AND(v0 == v1, v1 == v2)),
     ]
 
 
@@ -1318,7 +1568,7 @@ def _fam_contract(impls, ups):
 for _c, _impl in ((C_DFTT, "torch"), (C_DFTN, "numpy")):
     _c.concretize, _c.rt = conc_dft(_impl), rt_dft
     _c.rt_family = (lambda i: (lambda: fam_dft("quick", 0, impls=(i,))))(_impl)
-for _c, _impl, _ups in ((C_UPS, "torch", (4, 8)), (C_ALIGN, "torch_fourier", (2, 8)), (C_CCT, "torch", (1, 2, 4)), (C_CCS, "numpy", (1, 4)), (C_CCS2, "numpy", (1, 4))):
+for _c, _impl, _ups in ((C_UPS, "torch", (4, 8)), (C_ALIGN, "torch_fourier", (2, 8)), (C_CCT, "torch", (1, 2, 4)), (C_CCS, "numpy", (1, 4)), (C_CCS2, "numpy", (1, 4)), (C_CCS3, "numpy", (1, 4)), (C_CCS4, "numpy", (1, 4))):
     _c.concretize, _c.rt, _c.rt_family = conc_shift(_impl), rt_shift_replay, _fam_contract((_impl,), _ups)
 
 def rt_callers(inp):
@@ -1520,6 +1770,21 @@ C_STACK.concretize = lambda ev: dict(caller="tomography", H=17, W=20, up=1, seed
 C_STACK.rt = rt_callers
 C_STACK.rt_family = lambda: (i for i in fam_callers("quick", 0) if i["caller"] == "tomography")
 
+
+
+def conc_dp(ev):
+    H, W, up = ev("H"), ev("W"), ev("up")
+    H = H if H is not None and 14 <= H <= 40 else 17
+    W = W if W is not None and 14 <= W <= 40 else 24
+    if H == W:
+        W = H + 5   # the callers' clauses distinguish the two image sizes: replay on a non-square image
+    return dict(caller="direct_ptycho", H=H, W=W, up=up if up is not None and 1 <= up <= 16 else 4, seed=H)
+
+
+for _c in (C_REF, C_PAIR):
+    _c.concretize, _c.rt = conc_dp, rt_callers
+    _c.rt_family = lambda: (i for i in fam_callers("quick", 0) if i["caller"] == "direct_ptycho")
+
 BOUNDED = [
     bounded_shift("shift recovery contract on real estimators (numpy + torch)", fam_shift,
                   "shapes 8..33 odd/even/non-square (11 quick, 17 thorough), upsample {1,2,3,4,8,16,64} (+5,32 thorough), identical / 4 integer / 4 sub-pixel shifts "
@@ -1540,6 +1805,8 @@ TRUSTED = [
     "A5 DFT facts (NOT proved): shift theorem; Re ifft2(F_ref*conj(F_im)) is the circular cross-correlation; forward kernel on conj(cc) = conj of inverse kernel on cc",
     "pyvc/lib/c13_models.py: complex arrays as structural terms (conj involution / distributes over products, conj(exp(ip)) = exp(-ip), `x*y` allocates, `x*=y` writes x), "
     "fftfreq / fftshift / ifftshift / arange / outer index maps, argmax returns an in-range flat index (division with remainder exact), torch.round = nearest integer (ties unspecified), floor/ceil exact",
+    "pyvc/lib/c13_models.py (round 5): tensor.long() / .to(integer dtype) truncate to an integer; a[i] = vector is a functional row update; image k of a named "
+    "stack and its per-image fft2 keep a ghost identity k; torch.stack of 0-d values is their vector; 2-D slices cut out of an argmax-searched array are logged (ghost)",
     "argmax maximality and uniqueness of the correlation peak are hypotheses of the property lemmas, not available to (nor needed by) the function-level obligations",
     "witness instantiation for congruences (sums of the floor terms occurring in the result) and generalisation of sample quotients to fresh reals: both only strengthen the proved goal",
     "pyvc engine (AST interpreter, slicing / broadcasting semantics), z3, cvc5",
@@ -1549,14 +1816,25 @@ ASSUMPTIONS = [
     "A5 DFT axioms trusted; the FFT implementations and the quality of peak search (that the argmax of the correlation IS the applied shift) are outside deductive reach",
     "the statement `returns the applied shift` is decided only by the bounded run-time contract (finite families), never counted as proved",
     "device='gpu' (cupy) branches are not explored",
-    "cross_correlation_shift is verified for 6 of the 12 combinations of (fft_input, return_shifted_image, fft_output, max_shift given): a pairwise "
-    "cover - every statement of the function that tests an option tests exactly one option; upsample_factor, shapes, max_shift value are symbolic on every path",
-    "numpy parabolic_peak divides without a zero test: the vertex clauses are stated for non-zero curvature (unique peak), the flat case is not specified",
+    "cross_correlation_shift is verified for all 12 combinations of (fft_input) x (no aligned image | real-space image | spectrum) x (max_shift None | given), "
+    "quick and thorough tier; upsample_factor, shapes, max_shift value are symbolic on every path (fft_output=True without return_shifted_image is inert and not enumerated)",
+    "numpy parabolic_peak divides without a zero test: the vertex clauses are stated for non-zero curvature; lemma `parabola` proves that a strict (unique) peak has "
+    "positive curvature and that at a maximal centre sample zero curvature means a three-sample plateau - that case is outside the property's quantifier (unique "
+    "peak); there the code computes 0/0 in IEEE arithmetic (non-finite shift, no exception), which the real-number engine does not model (A1) and the bounded "
+    "oracle's `finite` clause would report",
     "tomography.utils.cross_correlation_align_stack is verified in a translation model of images (image = fixed content at a position; "
     "scipy.ndimage.shift adds the shift to the position) with cross_correlation_shift used BY CONTRACT as `returns the translation mapping the "
     "second image onto the first` - the C13 statement, decided for the real estimator only by the bounded run-time contract, not proved",
-    "callers in imaging/drift.py and direct_ptycho_utils.py are not under contract (bounded call-site family only); they rely on the frame + sign clauses proved here",
+    "direct_ptycho_utils._compute_reference_shifts / _compute_pairwise_shifts are verified from source (symbolic number of images / pairs, symbolic H and W) with "
+    "cross_correlation_shift_torch and align_images_fourier_torch used BY CONTRACT: the estimator's value for (image a, image b, upsample factor) is a ghost "
+    "function RAW of the image identities (the estimator is a function of its arguments: checked by the bounded oracle's `deterministic` clause, not proved); the "
+    "clauses say WHICH pair is registered in which order and that the row / column component is reported in the centred cell of the image height / width - that "
+    "RAW is the applied translation remains the bounded statement; pair indices are assumed to be valid stack indices (call site builds them from arange(N))",
+    "imaging/drift.py: align_translation's call site is under contract (arguments are the caller's own, C_AT13; bookkeeping of the returned shift in C15); the two "
+    "call sites inside align_affine are not under contract (bounded family only)",
 ]
 EXPLANATION = ("VCs generated from the real source of dft_upsample, cross_correlation_shift, cross_correlation_shift_torch, align_images_fourier_torch, "
                "upsampled_correlation_torch, dftUpsample_torch (centred wrap, parabolic vertex, DFT index vectors and kernel phases, conjugation/sign convention, "
-               "local-peak-to-shift conversion, phase ramp of the aligned image, frames), property lemmas, and the run-time shift-recovery contract as bounded stand-in")
+               "local-peak-to-shift conversion incl. the index bookkeeping of the 3x3 refinement patch, phase ramp of the aligned image, frames); the callers "
+               "_compute_reference_shifts / _compute_pairwise_shifts / cross_correlation_align_stack / align_translation call site with the estimators used by contract; "
+               "property lemmas, and the run-time shift-recovery contract as bounded stand-in")
